@@ -337,14 +337,15 @@ theorem mstep_other (m m' : MState) (a : Nat) (ev : Ev) (r : Reply) (hne : evAdd
 
 /-! ### The task's side -/
 
-def hview (t : HState) : View := (t.pieceRx.map (·.index), t.choked)
+/-- What a view keeps of the piece being fetched: any function of its index and listed hash (the index alone for the link
+    with the manager, the pair for `RxListed`). -/
+def hviewF {α : Type} (f : Nat → Bytes → α) (t : HState) : Option α × Bool :=
+  (t.pieceRx.map (fun rx => f rx.index rx.hash), t.choked)
 
-def rxOfRep : Rep → Option Nat
-  | .req rd _ => some rd.index
+def rxOfRepF {α : Type} (f : Nat → Bytes → α) : Rep → Option α
+  | .req rd _ => some (f rd.index rd.hash)
   | _ => none
 
-theorem rxOfRep_repOf (T : Torrent) (r : Reply) : rxOfRep (repOf T r) = rxOfReply r := by
-  cases r <;> rfl
 
 @[simp] theorem cmdsOf_nil : cmdsOf [] = [] := rfl
 @[simp] theorem cmdsOf_append (a b : List HOut) : cmdsOf (a ++ b) = cmdsOf a ++ cmdsOf b := by
@@ -358,28 +359,28 @@ theorem cmdsOf_map_write (f : α → Msg) (l : List α) : cmdsOf (l.map fun x =>
   | nil => rfl
   | cons x xs ih => simp [ih]
 
-theorem sendRequest_view (s : HState) :
-    hview (sendRequest s).1 = hview s ∧ cmdsOf (sendRequest s).2 = [] := by
+theorem sendRequest_viewF {α : Type} (f : Nat → Bytes → α) (s : HState) :
+    hviewF f (sendRequest s).1 = hviewF f s ∧ cmdsOf (sendRequest s).2 = [] := by
   unfold sendRequest
   split
   · split
-    · exact ⟨by simp_all [hview], by simp⟩
+    · exact ⟨by simp_all [hviewF], by simp⟩
     · exact ⟨rfl, rfl⟩
   · exact ⟨rfl, rfl⟩
 
-theorem newPieceRequest_view (s : HState) (b : Bool) (rd : ReqData) :
-    hview (newPieceRequest s b rd).1 = (some rd.index, s.choked) ∧ cmdsOf (newPieceRequest s b rd).2 = [] := by
+theorem newPieceRequest_viewF {α : Type} (f : Nat → Bytes → α) (s : HState) (b : Bool) (rd : ReqData) :
+    hviewF f (newPieceRequest s b rd).1 = (some (f rd.index rd.hash), s.choked) ∧ cmdsOf (newPieceRequest s b rd).2 = [] := by
   unfold newPieceRequest
   simp only
-  have h1 := sendRequest_view { s with pieceRx := some (newRx rd) }
-  have h2 := sendRequest_view (sendRequest { s with pieceRx := some (newRx rd) }).1
+  have h1 := sendRequest_viewF f { s with pieceRx := some (newRx rd) }
+  have h2 := sendRequest_viewF f (sendRequest { s with pieceRx := some (newRx rd) }).1
   refine ⟨by rw [h2.1, h1.1]; rfl, ?_⟩
   simp only [cmdsOf_append, h1.2, h2.2, List.append_nil]
   cases b <;> simp
 
-theorem pieceFinishReply_view (s : HState) (rep : Rep) (s2 : HState) (o2 : List HOut) (b : Bool)
+theorem pieceFinishReply_viewF {α : Type} (f : Nat → Bytes → α) (s : HState) (rep : Rep) (s2 : HState) (o2 : List HOut) (b : Bool)
     (hrx : s.pieceRx = none) (h : pieceFinishReply s rep = some (s2, o2, b)) :
-    hview s2 = (rxOfRep rep, s.choked) ∧ cmdsOf o2 = [] := by
+    hviewF f s2 = (rxOfRepF f rep, s.choked) ∧ cmdsOf o2 = [] := by
   unfold pieceFinishReply at h
   cases rep with
   | req rd wi =>
@@ -387,20 +388,20 @@ theorem pieceFinishReply_view (s : HState) (rep : Rep) (s2 : HState) (o2 : List 
     | false =>
       simp only [Option.some.injEq, Prod.mk.injEq] at h
       obtain ⟨rfl, rfl, _⟩ := h
-      exact newPieceRequest_view s false rd
+      exact newPieceRequest_viewF f s false rd
     | true => cases h
   | sendNotInterested =>
     simp only [Option.some.injEq, Prod.mk.injEq] at h
     obtain ⟨rfl, rfl, _⟩ := h
-    exact ⟨by simp [hview, hrx, rxOfRep], by simp⟩
+    exact ⟨by simp [hviewF, hrx, rxOfRepF], by simp⟩
   | prepareKill =>
     simp only [Option.some.injEq, Prod.mk.injEq] at h
     obtain ⟨rfl, rfl, _⟩ := h
-    exact ⟨by simp [hview, hrx, rxOfRep], by simp⟩
+    exact ⟨by simp [hviewF, hrx, rxOfRepF], by simp⟩
   | ignore =>
     simp only [Option.some.injEq, Prod.mk.injEq] at h
     obtain ⟨rfl, rfl, _⟩ := h
-    exact ⟨by simp [hview, hrx, rxOfRep], by simp⟩
+    exact ⟨by simp [hviewF, hrx, rxOfRepF], by simp⟩
   | bitfield _ => cases h
   | sendInterested => cases h
   | state _ _ => cases h
@@ -408,18 +409,18 @@ theorem pieceFinishReply_view (s : HState) (rep : Rep) (s2 : HState) (o2 : List 
   | none => cases h
 
 /-- The task's view after it handled an input: read off the command it sent and the reply it got. -/
-def taskAfter (v : View) (cmds : List Cmd) (rep : Rep) : View :=
+def taskAfterF {α : Type} (f : Nat → Bytes → α) (v : Option α × Bool) (cmds : List Cmd) (rep : Rep) : Option α × Bool :=
   match cmds with
   | [.recvChoke] => (v.1, true)
-  | [.recvUnchoke] => (rxOfRep rep, false)
-  | [.recvHave _] => (match rep with | .req rd _ => some rd.index | _ => v.1, v.2)
-  | [.pieceDone] => (rxOfRep rep, v.2)
-  | [.pieceCancel] => (rxOfRep rep, v.2)
+  | [.recvUnchoke] => (rxOfRepF f rep, false)
+  | [.recvHave _] => (match rep with | .req rd _ => some (f rd.index rd.hash) | _ => v.1, v.2)
+  | [.pieceDone] => (rxOfRepF f rep, v.2)
+  | [.pieceCancel] => (rxOfRepF f rep, v.2)
   | _ => v
 
-theorem onPiece_view (sha1 : Bytes → Bytes) (s : HState) (idx begin : Nat) (block : Bytes) (rep : Rep)
+theorem onPiece_viewF {α : Type} (f : Nat → Bytes → α) (sha1 : Bytes → Bytes) (s : HState) (idx begin : Nat) (block : Bytes) (rep : Rep)
     (s1 : HState) (o : List HOut) (h : onPiece sha1 s idx begin block rep = some (s1, o, .go)) :
-    hview s1 = taskAfter (hview s) (cmdsOf o) rep ∧ (cmdsOf o).length ≤ 1 := by
+    hviewF f s1 = taskAfterF f (hviewF f s) (cmdsOf o) rep ∧ (cmdsOf o).length ≤ 1 := by
   unfold onPiece at h
   cases hrx : s.pieceRx with
   | none =>
@@ -445,21 +446,21 @@ theorem onPiece_view (sha1 : Bytes → Bytes) (s : HState) (idx begin : Nat) (bl
             | true =>
               simp only [Option.some.injEq, Prod.mk.injEq] at h
               obtain ⟨rfl, rfl, _⟩ := h
-              obtain ⟨h1, h2⟩ := pieceFinishReply_view _ rep _ _ _ rfl hpf
+              obtain ⟨h1, h2⟩ := pieceFinishReply_viewF f _ rep _ _ _ rfl hpf
               refine ⟨?_, by simp [h2]⟩
-              simp only [List.cons_append, List.nil_append, cmdsOf_save, cmdsOf_cmd, h2, taskAfter, h1]
+              simp only [List.cons_append, List.nil_append, cmdsOf_save, cmdsOf_cmd, h2, taskAfterF, h1]
               rfl
             | false => simp at h
       · -- not complete yet: the next request
         simp only [Option.some.injEq, Prod.mk.injEq] at h
         obtain ⟨rfl, rfl, _⟩ := h
         refine ⟨?_, ?_⟩
-        · rw [(sendRequest_view _).1, (sendRequest_view _).2]; simp [hview, hrx, taskAfter]
-        · rw [(sendRequest_view _).2]; simp
+        · rw [(sendRequest_viewF f _).1, (sendRequest_viewF f _).2]; simp [hviewF, hrx, taskAfterF]
+        · rw [(sendRequest_viewF f _).2]; simp
 
-theorem dispatch_view (sha1 : Bytes → Bytes) (disk : Bytes → Option Bytes) (s : HState) (m : Msg) (rep : Rep)
+theorem dispatch_viewF {α : Type} (f : Nat → Bytes → α) (sha1 : Bytes → Bytes) (disk : Bytes → Option Bytes) (s : HState) (m : Msg) (rep : Rep)
     (s1 : HState) (o : List HOut) (h : dispatch sha1 disk s m rep = some (s1, o, .go)) :
-    hview s1 = taskAfter (hview s) (cmdsOf o) rep ∧ (cmdsOf o).length ≤ 1 := by
+    hviewF f s1 = taskAfterF f (hviewF f s) (cmdsOf o) rep ∧ (cmdsOf o).length ≤ 1 := by
   cases m with
   | handshake ih pid =>
     simp only [dispatch] at h
@@ -481,20 +482,20 @@ theorem dispatch_view (sha1 : Bytes → Bytes) (disk : Bytes → Option Bytes) (
     | req rd wi =>
       simp only [Option.some.injEq, Prod.mk.injEq] at h
       obtain ⟨rfl, rfl, _⟩ := h
-      obtain ⟨h1, h2⟩ := newPieceRequest_view { s with choked := false, msgBuff := [] } wi rd
+      obtain ⟨h1, h2⟩ := newPieceRequest_viewF f { s with choked := false, msgBuff := [] } wi rd
       refine ⟨?_, by simp [h2, cmdsOf_map_write]⟩
-      simp only [cmdsOf_append, cmdsOf_map_write, cmdsOf_cmd, cmdsOf_nil, h2, List.nil_append, List.append_nil, taskAfter, h1]
+      simp only [cmdsOf_append, cmdsOf_map_write, cmdsOf_cmd, cmdsOf_nil, h2, List.nil_append, List.append_nil, taskAfterF, h1]
       rfl
     | sendNotInterested =>
       simp only [Option.some.injEq, Prod.mk.injEq] at h
       obtain ⟨rfl, rfl, _⟩ := h
       refine ⟨?_, by simp [cmdsOf_map_write]⟩
-      simp [cmdsOf_map_write, taskAfter, hview, rxOfRep]
+      simp [cmdsOf_map_write, taskAfterF, hviewF, rxOfRepF]
     | ignore =>
       simp only [Option.some.injEq, Prod.mk.injEq] at h
       obtain ⟨rfl, rfl, _⟩ := h
       refine ⟨?_, by simp [cmdsOf_map_write]⟩
-      simp [cmdsOf_map_write, taskAfter, hview, rxOfRep]
+      simp [cmdsOf_map_write, taskAfterF, hviewF, rxOfRepF]
     | bitfield _ => cases h
     | sendInterested => cases h
     | prepareKill => cases h
@@ -511,7 +512,7 @@ theorem dispatch_view (sha1 : Bytes → Bytes) (disk : Bytes → Option Bytes) (
     | ignore =>
       simp only [Option.some.injEq, Prod.mk.injEq] at h
       obtain ⟨rfl, rfl, _⟩ := h
-      exact ⟨by simp [hview, taskAfter], by simp⟩
+      exact ⟨by simp [hviewF, taskAfterF], by simp⟩
     | prepareKill => simp at h
     | bitfield _ => cases h
     | req _ _ => cases h
@@ -530,9 +531,9 @@ theorem dispatch_view (sha1 : Bytes → Bytes) (disk : Bytes → Option Bytes) (
         | true =>
           simp only [Option.some.injEq, Prod.mk.injEq] at h
           obtain ⟨rfl, rfl, _⟩ := h
-          obtain ⟨h1, h2⟩ := newPieceRequest_view s true rd
+          obtain ⟨h1, h2⟩ := newPieceRequest_viewF f s true rd
           refine ⟨?_, by simp [h2]⟩
-          simp only [List.cons_append, List.nil_append, cmdsOf_cmd, h2, taskAfter, h1]
+          simp only [List.cons_append, List.nil_append, cmdsOf_cmd, h2, taskAfterF, h1]
           rfl
         | false => cases h
       | sendInterested =>
@@ -558,7 +559,7 @@ theorem dispatch_view (sha1 : Bytes → Bytes) (disk : Bytes → Option Bytes) (
         simp only [Option.some.injEq, Prod.mk.injEq] at h
         obtain ⟨rfl, rfl, _⟩ := h
         refine ⟨?_, by cases u <;> simp⟩
-        cases u <;> simp [taskAfter]
+        cases u <;> simp [taskAfterF]
       | bitfield _ => cases h
       | req _ _ => cases h
       | sendInterested => cases h
@@ -589,12 +590,12 @@ theorem dispatch_view (sha1 : Bytes → Bytes) (disk : Bytes → Option Bytes) (
             split at hc
             · simp only [Option.some.injEq, Prod.mk.injEq] at hc
               obtain ⟨rfl, rfl, _⟩ := hc
-              refine ⟨?_, ?_⟩ <;> (simp only; repeat' split) <;> simp [taskAfter, hview]
+              refine ⟨?_, ?_⟩ <;> (simp only; repeat' split) <;> simp [taskAfterF, hviewF]
             · simp at hc
           | ignore =>
             simp only [Option.some.injEq, Prod.mk.injEq] at hc
             obtain ⟨rfl, rfl, _⟩ := hc
-            refine ⟨?_, ?_⟩ <;> simp [taskAfter, hview]
+            refine ⟨?_, ?_⟩ <;> simp [taskAfterF, hviewF]
           | bitfield _ => cases hc
           | req _ _ => cases hc
           | sendInterested => cases hc
@@ -604,19 +605,19 @@ theorem dispatch_view (sha1 : Bytes → Bytes) (disk : Bytes → Option Bytes) (
           | none => cases hc
         · simp only [Option.some.injEq, Prod.mk.injEq] at hc
           obtain ⟨rfl, rfl, _⟩ := hc
-          refine ⟨?_, ?_⟩ <;> (repeat' split) <;> simp [taskAfter, hview]
+          refine ⟨?_, ?_⟩ <;> (repeat' split) <;> simp [taskAfterF, hviewF]
   | piece idx begin block =>
     simp only [dispatch] at h
-    exact onPiece_view sha1 s idx begin block rep s1 o h
+    exact onPiece_viewF f sha1 s idx begin block rep s1 o h
   | cancel idx begin len =>
     simp only [dispatch, Option.some.injEq, Prod.mk.injEq] at h
     obtain ⟨rfl, rfl, _⟩ := h
     exact ⟨rfl, by simp⟩
 
 /-- One step of a live task that does not end it: its view afterwards, and it sent at most one command. -/
-theorem hstep_view (sha1 : Bytes → Bytes) (disk : Bytes → Option Bytes) (t : HState) (ha : t.alive = true) (inp : HIn)
+theorem hstep_viewF {α : Type} (f : Nat → Bytes → α) (sha1 : Bytes → Bytes) (disk : Bytes → Option Bytes) (t : HState) (ha : t.alive = true) (inp : HIn)
     (t' : HState) (outs : List HOut) (h : hstep sha1 disk t inp = some (t', outs, none)) :
-    hview t' = taskAfter (hview t) (cmdsOf outs) (repIn inp) ∧ (cmdsOf outs).length ≤ 1 ∧ t'.alive = true := by
+    hviewF f t' = taskAfterF f (hviewF f t) (cmdsOf outs) (repIn inp) ∧ (cmdsOf outs).length ≤ 1 ∧ t'.alive = true := by
   have hg : (!t.alive) = false := by simp [ha]
   cases inp with
   | start =>
@@ -641,20 +642,20 @@ theorem hstep_view (sha1 : Bytes → Bytes) (disk : Bytes → Option Bytes) (t :
         simp only at hf
         split at hf
         · simp at hf
-        · obtain ⟨h1, h2⟩ := dispatch_view sha1 disk _ m rep _ _ hf
+        · obtain ⟨h1, h2⟩ := dispatch_viewF f sha1 disk _ m rep _ _ hf
           exact ⟨h1, h2, by rw [hal]; exact ha⟩
   | eof => simp [hstep, hg, terminate] at h
   | recvErr => simp [hstep, hg, terminate] at h
   | bcHave i rep =>
     simp only [hstep, hg, Bool.false_eq_true, if_false] at h
-    have fin : ∀ (r : Option (HState × List HOut)) (v : View) (cs : List Cmd),
-        (∀ s1 o1, r = some (s1, o1) → hview s1 = v ∧ cmdsOf o1 = cs ∧ s1.alive = true) →
+    have fin : ∀ (r : Option (HState × List HOut)) (v : Option α × Bool) (cs : List Cmd),
+        (∀ s1 o1, r = some (s1, o1) → hviewF f s1 = v ∧ cmdsOf o1 = cs ∧ s1.alive = true) →
         (match r with
           | none => (none : Option HRes)
           | some (s1, o1) =>
             if s1.choked = true then some ({ s1 with msgBuff := s1.msgBuff ++ [i] }, o1, none)
             else some (s1, o1 ++ [HOut.write (Msg.haveP i)], none)) = some (t', outs, none) →
-        hview t' = v ∧ cmdsOf outs = cs ∧ t'.alive = true := by
+        hviewF f t' = v ∧ cmdsOf outs = cs ∧ t'.alive = true := by
       intro r v cs hr hm
       cases r with
       | none => cases hm
@@ -672,7 +673,7 @@ theorem hstep_view (sha1 : Bytes → Bytes) (disk : Bytes → Option Bytes) (t :
     cases hrx : t.pieceRx with
     | none =>
       rw [hrx] at h
-      obtain ⟨h1, h2, h3⟩ := fin (some (t, [])) (hview t) [] (fun s1 o1 e => by cases e; exact ⟨rfl, rfl, ha⟩) h
+      obtain ⟨h1, h2, h3⟩ := fin (some (t, [])) (hviewF f t) [] (fun s1 o1 e => by cases e; exact ⟨rfl, rfl, ha⟩) h
       exact ⟨by rw [h1, h2]; rfl, by rw [h2]; simp, h3⟩
     | some rx =>
       rw [hrx] at h
@@ -684,16 +685,16 @@ theorem hstep_view (sha1 : Bytes → Bytes) (disk : Bytes → Option Bytes) (t :
         | some tt =>
           obtain ⟨s2, o2, b2⟩ := tt
           rw [hpf] at h
-          obtain ⟨hv, hc⟩ := pieceFinishReply_view _ rep _ _ _ rfl hpf
+          obtain ⟨hv, hc⟩ := pieceFinishReply_viewF f _ rep _ _ _ rfl hpf
           have hcore := pieceFinishReply_core _ rep _ _ _ hpf
-          obtain ⟨h1, h2, h3⟩ := fin (some (s2, _)) (rxOfRep rep, t.choked) [.pieceCancel]
+          obtain ⟨h1, h2, h3⟩ := fin (some (s2, _)) (rxOfRepF f rep, t.choked) [.pieceCancel]
             (fun s1 o1 e => by
               cases e
               refine ⟨hv, ?_, by rw [hcore.2.1]; exact ha⟩
               simp [cmdsOf_map_write, hc]) h
           exact ⟨by rw [h1, h2]; rfl, by rw [h2]; simp, h3⟩
       · simp only [hi, if_false] at h
-        obtain ⟨h1, h2, h3⟩ := fin (some (t, [])) (hview t) [] (fun s1 o1 e => by cases e; exact ⟨rfl, rfl, ha⟩) h
+        obtain ⟨h1, h2, h3⟩ := fin (some (t, [])) (hviewF f t) [] (fun s1 o1 e => by cases e; exact ⟨rfl, rfl, ha⟩) h
         exact ⟨by rw [h1, h2]; rfl, by rw [h2]; simp, h3⟩
   | bcState entry =>
     simp only [hstep, hg, Bool.false_eq_true, if_false] at h
@@ -708,6 +709,21 @@ theorem hstep_view (sha1 : Bytes → Bytes) (disk : Bytes → Option Bytes) (t :
     · simp only [Option.some.injEq, Prod.mk.injEq] at h
       obtain ⟨rfl, rfl, _⟩ := h
       exact ⟨rfl, by simp, ha⟩
+
+/-! The link with the manager uses the index alone. -/
+
+abbrev idxOnly : Nat → Bytes → Nat := fun i _ => i
+abbrev hview (t : HState) : View := hviewF idxOnly t
+abbrev rxOfRep (rep : Rep) : Option Nat := rxOfRepF idxOnly rep
+abbrev taskAfter (v : View) (cmds : List Cmd) (rep : Rep) : View := taskAfterF idxOnly v cmds rep
+
+theorem rxOfRep_repOf (T : Torrent) (r : Reply) : rxOfRepF idxOnly (repOf T r) = rxOfReply r := by
+  cases r <;> rfl
+
+theorem hstep_view (sha1 : Bytes → Bytes) (disk : Bytes → Option Bytes) (t : HState) (ha : t.alive = true) (inp : HIn)
+    (t' : HState) (outs : List HOut) (h : hstep sha1 disk t inp = some (t', outs, none)) :
+    hview t' = taskAfter (hview t) (cmdsOf outs) (repIn inp) ∧ (cmdsOf outs).length ≤ 1 ∧ t'.alive = true :=
+  hstep_viewF idxOnly sha1 disk t ha inp t' outs h
 
 /-- A step that ends the task leaves it dead. -/
 theorem hstep_end (sha1 : Bytes → Bytes) (disk : Bytes → Option Bytes) (t : HState) (ha : t.alive = true) (inp : HIn)
@@ -767,7 +783,7 @@ theorem linked_step (T : Torrent) (sha1 : Bytes → Bytes) (disk : Bytes → Opt
     | none =>
       obtain ⟨hv, hlen, _⟩ := hstep_view sha1 disk t hal inp t' outs hh
       obtain ⟨p, hp, hrx, hch, hidx⟩ := hl hal
-      have hvt : hview t = (p.rx, p.choked) := by simp [hview, hrx, hch]
+      have hvt : hview t = (p.rx, p.choked) := by simp [hview, hviewF, idxOnly, hrx, hch]
       simp only [afterEnd]
       cases hc : cmdsOf outs with
       | nil =>
@@ -801,7 +817,7 @@ theorem linked_step (T : Torrent) (sha1 : Bytes → Bytes) (disk : Bytes → Opt
           simp only [Handled] at hH
           obtain ⟨chosen, r, hm, hr⟩ := hH
           obtain ⟨p', hp', hv', hi'⟩ := mstep_view m m1 a _ _ p rfl rfl hp hm
-          exact linked_of_view a m1 t' _ p' hp' hv' (by rw [hv, hvt, hr]; simp [taskAfter, viewAfter, rxOfRep_repOf]) (hi' hidx)
+          exact linked_of_view a m1 t' _ p' hp' hv' (by rw [hv, hvt, hr]; simp [taskAfter, taskAfterF, viewAfter, rxOfRep_repOf]) (hi' hidx)
         | recvNotInterested =>
           simp only [Handled] at hH
           obtain ⟨chosen, r, hm, hr⟩ := hH
@@ -813,7 +829,7 @@ theorem linked_step (T : Torrent) (sha1 : Bytes → Bytes) (disk : Bytes → Opt
           obtain ⟨p', hp', hv', hi'⟩ := mstep_view m m1 a _ _ p rfl rfl hp hm
           refine linked_of_view a m1 t' _ p' hp' hv' ?_ (hi' hidx)
           rw [hv, hvt, hr]
-          cases r <;> simp [taskAfter, viewAfter, repOf]
+          cases r <;> simp [taskAfter, taskAfterF, idxOnly, viewAfter, repOf]
         | recvBitfield bs =>
           simp only [Handled] at hH
           obtain ⟨bits, chosen, u, hm, hr⟩ := hH
@@ -823,12 +839,12 @@ theorem linked_step (T : Torrent) (sha1 : Bytes → Bytes) (disk : Bytes → Opt
           simp only [Handled] at hH
           obtain ⟨chosen, r, hm, hr⟩ := hH
           obtain ⟨p', hp', hv', hi'⟩ := mstep_view m m1 a _ _ p rfl rfl hp hm
-          exact linked_of_view a m1 t' _ p' hp' hv' (by rw [hv, hvt, hr]; simp [taskAfter, viewAfter, rxOfRep_repOf]) (hi' hidx)
+          exact linked_of_view a m1 t' _ p' hp' hv' (by rw [hv, hvt, hr]; simp [taskAfter, taskAfterF, viewAfter, rxOfRep_repOf]) (hi' hidx)
         | pieceCancel =>
           simp only [Handled] at hH
           obtain ⟨chosen, r, hm, hr⟩ := hH
           obtain ⟨p', hp', hv', hi'⟩ := mstep_view m m1 a _ _ p rfl rfl hp hm
-          exact linked_of_view a m1 t' _ p' hp' hv' (by rw [hv, hvt, hr]; simp [taskAfter, viewAfter, rxOfRep_repOf]) (hi' hidx)
+          exact linked_of_view a m1 t' _ p' hp' hv' (by rw [hv, hvt, hr]; simp [taskAfter, taskAfterF, viewAfter, rxOfRep_repOf]) (hi' hidx)
 
 /-- **Steps of other connections keep the link**: any event of any other peer (connect, command, disconnect). -/
 theorem linked_env (a : Nat) (m m' : MState) (t : HState) (ev : Ev) (r : Reply) (hne : evAddr ev ≠ a)
@@ -916,5 +932,112 @@ theorem allLinked_reach (T : Torrent) (sha1 : Bytes → Bytes) (S : Sys) (h : Sy
   induction h with
   | init n dead hd => intro b ha; rw [hd b] at ha; cases ha
   | step S S' _ hs ih => exact allLinked_step T sha1 S S' ih hs
+
+/-! ### What a task is told about the piece it fetches is what the torrent lists -/
+
+theorem rxListed_iff (T : Torrent) (t : HState) :
+    RxListed T t ↔ ∀ i h, (hviewF Prod.mk t).1 = some (i, h) → h = T.hashes.getD i [] := by
+  unfold RxListed hviewF
+  constructor
+  · intro hl i h hv
+    cases hp : t.pieceRx with
+    | none => simp [hp] at hv
+    | some rx =>
+      simp only [hp, Option.map_some, Option.some.injEq, Prod.mk.injEq] at hv
+      obtain ⟨rfl, rfl⟩ := hv
+      exact hl rx hp
+  · intro hl rx hp
+    exact hl rx.index rx.hash (by simp [hp])
+
+theorem rxOfRepF_repOf_listed (T : Torrent) (r : Reply) (i : Nat) (h : Bytes)
+    (hv : rxOfRepF Prod.mk (repOf T r) = some (i, h)) : h = T.hashes.getD i [] := by
+  cases r <;> simp [rxOfRepF, repOf] at hv
+  obtain ⟨rfl, rfl⟩ := hv
+  rfl
+
+/-- Own steps keep it: every `ReqData` a task acts on came from the manager's reply (`repOf`: hash and length read from
+    the metainfo for the chosen index). -/
+theorem rxListed_step (T : Torrent) (sha1 : Bytes → Bytes) (disk : Bytes → Option Bytes) (a : Nat) (m m' : MState)
+    (t t' : HState) (inp : HIn) (outs : List HOut) (hal : t.alive = true) (hl : RxListed T t)
+    (hs : LStepO T sha1 disk a m t inp m' t' outs) (hal' : t'.alive = true) : RxListed T t' := by
+  obtain ⟨e, m1, hh, hH, _⟩ := hs
+  cases e with
+  | some b => rw [hstep_end sha1 disk t hal inp t' outs b hh] at hal'; cases hal'
+  | none =>
+    obtain ⟨hv, hlen, _⟩ := hstep_viewF Prod.mk sha1 disk t hal inp t' outs hh
+    rw [rxListed_iff] at hl ⊢
+    intro i h hi
+    rw [hv] at hi
+    cases hc : cmdsOf outs with
+    | nil => rw [hc] at hi; exact hl i h hi
+    | cons c rest =>
+      rw [hc] at hlen hi hH
+      have hrest : rest = [] := by
+        cases rest with
+        | nil => rfl
+        | cons _ _ => exact absurd hlen (by simp)
+      subst hrest
+      cases c with
+      | init pid => exact hl i h hi
+      | recvRequest idx => exact hl i h hi
+      | recvChoke => exact hl i h hi
+      | recvInterested => exact hl i h hi
+      | recvNotInterested => exact hl i h hi
+      | recvBitfield bs => exact hl i h hi
+      | recvUnchoke =>
+        simp only [Handled] at hH
+        obtain ⟨_, r, _, hr⟩ := hH
+        simp only [taskAfterF, hr] at hi
+        exact rxOfRepF_repOf_listed T r i h hi
+      | pieceDone =>
+        simp only [Handled] at hH
+        obtain ⟨_, r, _, hr⟩ := hH
+        simp only [taskAfterF, hr] at hi
+        exact rxOfRepF_repOf_listed T r i h hi
+      | pieceCancel =>
+        simp only [Handled] at hH
+        obtain ⟨_, r, _, hr⟩ := hH
+        simp only [taskAfterF, hr] at hi
+        exact rxOfRepF_repOf_listed T r i h hi
+      | recvHave j =>
+        simp only [Handled] at hH
+        obtain ⟨_, r, _, hr⟩ := hH
+        simp only [taskAfterF, hr] at hi
+        cases r with
+        | request c wi => simp only [repOf, Option.some.injEq, Prod.mk.injEq] at hi; obtain ⟨rfl, rfl⟩ := hi; rfl
+        | sendInterested => exact hl i h hi
+        | sendNotInterested => exact hl i h hi
+        | prepareKill => exact hl i h hi
+        | ignore => exact hl i h hi
+        | none => exact hl i h hi
+
+def AllListed (T : Torrent) (S : Sys) : Prop := ∀ b, (S.tasks b).alive = true → RxListed T (S.tasks b)
+
+theorem allListed_reach (T : Torrent) (sha1 : Bytes → Bytes) (S : Sys) (h : SysReach T sha1 S) : AllListed T S := by
+  induction h with
+  | init n dead hd => intro b ha; rw [hd b] at ha; cases ha
+  | step S S' _ hs ih =>
+    cases hs with
+    | connect a t m' hnone hfresh hadd =>
+      intro b hb
+      by_cases hba : b = a
+      · subst hba
+        simp only [updateTask, if_true] at hb ⊢
+        intro rx hrx; rw [hfresh.2.1] at hrx; cases hrx
+      · simp only [updateTask, hba, if_false] at hb ⊢
+        exact ih b hb
+    | own a d inp m' t' outs hstep =>
+      intro b hb
+      by_cases hba : b = a
+      · subst hba
+        simp only [updateTask, if_true] at hb ⊢
+        cases hal : (S.tasks b).alive with
+        | true => exact rxListed_step T sha1 (diskOf d) b S.m m' _ t' inp outs hal (ih b hal) hstep hb
+        | false =>
+          obtain ⟨e, m1, hh, _, _⟩ := hstep
+          simp only [hstep, hal, Bool.not_false, if_true, Option.some.injEq, Prod.mk.injEq] at hh
+          rw [← hh.1, hal] at hb; cases hb
+      · simp only [updateTask, hba, if_false] at hb ⊢
+        exact ih b hb
 
 end Rdest.Swarm.Loop
